@@ -181,6 +181,23 @@ def run(ctx, rep):
                 return None
             none_c, some_c = clos(t["args"][1]), clos(t["args"][2])
             ok = any(f.path == some_c for f, _ in pushes) and any(f.path == none_c for f, _ in chg) and not any(f.path == none_c for f, _ in pushes)
+        elif not moe:
+            # match / if-let / let-else on the lookup result in the same body: every push lies behind the Some edge, and every path
+            # from the None edge back to the loop head (or out of the function) stores file_changed = true
+            is_look = lambda x: x[0] == "discr" and isinstance(x[1], tuple) and x[1][0] == "call" and re.search(r"get_data$", x[1][1]) is not None
+            sws = [sw for sw in range(len(f0.blocks)) if f0.term(sw)["k"] == "switch" and is_look(flow.expr_of(f0, f0.term(sw)["discr"]))]
+            if len(sws) == 1:
+                tsw = f0.term(sws[0])
+                none_t = [x for v, x in tsw["targets"] if v == "0"]
+                none_t = none_t[0] if none_t else tsw["otherwise"]
+                okp = all(f is f0 and only_via(f0, bb, is_look, "1", from_bb=0) for f, bb in pushes)
+                flag_bbs = {bi for f, bi in chg if f is f0}
+                cut = [(p_, b_) for b_ in flag_bbs for p_ in f0.preds()[b_]]
+                rest = f0.reachable_from(none_t, cut_edges=cut) if none_t not in flag_bbs else set()
+                nexts = {bb for bb, t_ in f0.calls() if "callee" in t_ and re.search(r"Iterator>::next$", callee(t_))}
+                rets = {bi for bi in range(len(f0.blocks)) if f0.term(bi)["k"] == "return"}
+                okf = bool(flag_bbs) and not (rest & (nexts | rets))
+                ok = okp and okf
         rep.check("C12.f", "kept-iff-indexed", ok, where=PN.loc(), what="a blob is kept iff the index still has it; a missing blob marks the file as changed")
         # suffix only if changed
         sfx = [bi for bi, blk in enumerate(PN.blocks) for s in blk["s"] if False]
